@@ -45,6 +45,13 @@ type Config struct {
 	StoreSession bool `json:"store_session,omitempty"`
 }
 
+// scribbleInput overwrites a buffer that belongs to the client.
+func scribbleInput(b []byte) {
+	for i := range b {
+		b[i] = '~'
+	}
+}
+
 // DebugSink counts what the engine debugger writes.
 type DebugSink struct{ N int }
 
@@ -342,6 +349,7 @@ func (d *LongLived) Request(input []byte) *Obs {
 			o.PreFlushEvents = d.Res.Take()
 		}
 		cont, err := d.En.Exec(ctx, input)
+		scribbleInput(input) // the client's read buffer is reused as soon as Exec returns
 		o.Cont = cont
 		if err != nil {
 			o.ExecErr = err.Error()
@@ -479,6 +487,7 @@ func (d *PerRequest) Request(input []byte) *Obs {
 			o.PreFlushEvents = d.Res.Take()
 		}
 		cont, err := en.Exec(ctx, input)
+		scribbleInput(input) // the client's read buffer is reused as soon as Exec returns
 		o.Cont = cont
 		if err != nil {
 			o.ExecErr = err.Error()
